@@ -204,6 +204,19 @@ def run(ctx, repo, tier):
         ctx.inconclusive("PAIRIO", "C20.csv.index", "csv branch not recognised", le.where, witness=f"{len(csv)} plain read_csv calls")
     # legends
     rng = [n for n in ast.walk(gc.node) if isinstance(n, ast.For) and isinstance(n.iter, ast.Call) and isinstance(n.iter.func, ast.Name) and n.iter.func.id == "range"]
+    if not rng:
+        # the prefixes may be prepared once:  prefixes = tuple(f"@ s{i} legend" for i in range(0, 10)) ; line.startswith(prefixes)
+        class _R:          # adapter with the two attributes the rule reads (iter, and the subtree searched for startswith / append)
+            pass
+        for comp in [n for n in ast.walk(gc.node) if isinstance(n, (ast.GeneratorExp, ast.ListComp)) and isinstance(n.elt, ast.JoinedStr)]:
+            g0 = comp.generators[0]
+            if isinstance(g0.iter, ast.Call) and isinstance(g0.iter.func, ast.Name) and g0.iter.func.id == "range" and not g0.ifs:
+                lines = [n for n in ast.walk(gc.node) if isinstance(n, ast.For) and not (isinstance(n.iter, ast.Call) and src(n.iter.func) == "range")]
+                if lines:
+                    r_ = ast.For(target=g0.target, iter=g0.iter, body=lines[0].body, orelse=[])
+                    # the startswith argument of the rule below is the f-string itself
+                    r_._fstring = comp.elt
+                    rng = [r_]
     ctx.instance("PAIRIO", 4)
     if not rng:
         ctx.inconclusive("PAIRIO", "C20.legend.range", "legend scan loop not recognised", gc.where)
@@ -222,8 +235,12 @@ def run(ctx, repo, tier):
         sw = [n for n in ast.walk(rng[0]) if isinstance(n, ast.Call) and isinstance(n.func, ast.Attribute) and n.func.attr == "startswith" and n.args
               and isinstance(n.args[0], ast.JoinedStr)]
         pat = None
-        if sw:
-            parts = [(v.value if isinstance(v, ast.Constant) else "{}") for v in sw[0].args[0].values]
+        fstr = sw[0].args[0] if sw else getattr(rng[0], "_fstring", None)
+        if fstr is not None and not sw:
+            sw = [n for n in ast.walk(rng[0]) if isinstance(n, ast.Call) and isinstance(n.func, ast.Attribute) and n.func.attr == "startswith" and n.args
+                  and isinstance(n.args[0], ast.Name)]
+        if fstr is not None:
+            parts = [(v.value if isinstance(v, ast.Constant) else "{}") for v in fstr.values]
             pat = "".join(parts)
         ctx.check(pat == "@ s{} legend", "PAIRIO", "C20.legend.pattern", "a legend line is recognised by the prefix '@ s<i> legend'", gc.where,
                   src(sw[0])[:100] if sw else "", witness=repr(pat))
